@@ -200,6 +200,36 @@ def tail_variation(rng, c):
     return c1, c2
 
 
+def regs_touched(t):
+    """quantum registers of an operation tuple"""
+    return {x for x in t[1:] if isinstance(x, tuple) and len(x) == 2 and x[0] in ("e", "p")}
+
+
+def order_swapped(rng, c):
+    """exchange two neighbouring operations that share a register (so the sequence on that register changes while every class, register
+    set and node count stays the same) — preferably one whose *other* registers differ and come earlier in the walk order"""
+    ne, np_, nc, ts = c
+    cand = [i for i in range(len(ts) - 1) if regs_touched(ts[i]) & regs_touched(ts[i + 1]) and ts[i] != ts[i + 1]]
+    if not cand:
+        return None
+    multi = [i for i in cand if len(regs_touched(ts[i])) > 1 and len(regs_touched(ts[i + 1])) > 1 and regs_touched(ts[i]) != regs_touched(ts[i + 1])]
+    i = rng.choice(multi if multi and rng.random() < 0.7 else cand)
+    ts2 = list(ts)
+    ts2[i], ts2[i + 1] = ts2[i + 1], ts2[i]
+    return (ne, np_, nc, ts2)
+
+
+def random_multi(rng):
+    """3..5 quantum registers, mostly two-register gates: pairs of gates that share one late wire"""
+    ne = rng.randrange(1, 4)
+    np_ = rng.randrange(max(0, 3 - ne), 4)
+    nc = 1
+    ts = []
+    for _ in range(rng.randrange(2, 9)):
+        ts.append(cu.random_op(rng, ne, np_, nc, {"one": 0.15, "wrap": 0.0, "ctrl": 0.85, "cctrl": 0.0, "meas": 0.0}))
+    return (ne, np_, nc, ts)
+
+
 W_SMALL = {"one": 0.30, "wrap": 0.12, "ctrl": 0.33, "cctrl": 0.13, "meas": 0.12}
 
 
@@ -239,6 +269,11 @@ def gen_pairs(rng, n):
                 out.append(("tail-variation", p[0], p[1]))
         elif w < 0.92:
             out.append(("renamed+rewritten", c, rewrite_equivalent(rng, rename(rng, c))))
+        elif w < 0.96:
+            base = random_multi(rng) if rng.random() < 0.7 else c
+            d = order_swapped(rng, base)
+            if d:
+                out.append(("order-swapped", base, d))
         else:
             d = random_small(rng)
             out.append(("random", c, (c[0], c[1], c[2], d[3]) if (d[0] <= c[0] and d[1] <= c[1] and d[2] <= c[2]) else d))
@@ -366,6 +401,47 @@ def run_pairs(res, drv, pairs, want_state=True):
         res.sample(lines[0][:300] + " -> " + reps[0]["_raw"][:200])
 
 
+# ------------------------------------------------------------------------------------------------ circuits reached through edit histories
+def run_history(res, drv, rng, n):
+    """the second circuit of the pair is *reached by another edit history* (`replace_op` of a placeholder of another class — Identity, plain
+    gate, wrapper, the other controlled gate — or `insert_at` on the output edges): the comparison must answer as for the `add`-built circuit
+    (the model reply), a history-built copy must compare equal, and equal still means equal wires"""
+    specs = []
+    for _ in range(n):
+        c = random_small(rng) if rng.random() < 0.8 else random_small(rng, max_q=5, max_ops=16)
+        w = rng.random()
+        d = c if w < 0.5 else (mutate_one(rng, c) if w < 0.8 else (order_swapped(rng, c) or c))
+        specs.append((c, d, rng.choice(["replace", "replace", "insert"]), rng.getrandbits(32)))
+    reps = drv.batch([f"c15.cmp a={enc(c)} b={enc(d)}" for c, d, _, _ in specs])
+    import random as _random
+    for (c, d, mode, sd), rep in zip(specs, reps):
+        r2 = _random.Random(sd)
+        ca = build(c)
+        try:
+            cb = cu.build_history(d[0], d[1], d[2], d[3], mode=mode, pick=lambda k, t: r2.random() < 0.6)
+        except Exception as e:  # noqa: BLE001
+            res.violation(f"history:raises:{err_class(e)}", "replace_op / insert_at raised while building a valid circuit", input={"b": enc(d), "mode": mode})
+            continue
+        inp = {"kind": "history:" + mode, "a": enc(c), "b": enc(d), "pick_seed": sd}
+        res.evaluations += 1
+        res.count("branches", f"history:{mode}:{'copy' if d == c else 'variant'}")
+        for tag, impl in (("ab", impl_results(ca, cb)), ("ba", {k: v for k, v in impl_results(cb.copy(), ca.copy()).items()})):
+            same_wires = c[:3] == d[:3] and wires_no_c(c[3]) == wires_no_c(d[3])
+            if tag == "ab" and rep["_status"] == "ok":
+                for k in ("direct", "iso", "isonorm"):
+                    if rep.get(k) != impl[k]:
+                        res.exact_break(f"compare:{k} (second circuit reached by a {mode} history)", input=inp, impl=impl[k], model=rep.get(k))
+            if impl["direct"] == "1" and not same_wires:
+                res.violation("direct:false-equal:history", "direct reports equal but the circuits differ on some register (second circuit reached by an edit history)", input=inp)
+            elif impl["direct"] == "0" and d == c:
+                res.violation("direct:false-distinct:history", "a circuit reached by replace_op / insert_at is reported different from the add-built circuit with the same operations", input=inp)
+            elif impl["direct"].startswith("err"):
+                res.violation(f"direct:raises:{impl['direct']}", "direct raised on two valid circuits", input=inp)
+            if d == c and impl["iso"] != "1":
+                res.violation("is_isomorphic:false-distinct:history", "a circuit reached by replace_op / insert_at is not isomorphic to the add-built circuit with the same operations", input=inp)
+        res.nontrivial("history", inp["a"], inp["b"], mode, sd)
+
+
 # ------------------------------------------------------------------------------------------------ graphs
 def dump_impl(c, norm, ct):
     from graphiq.utils.circuit_comparison import add_control_target_to_dag
@@ -445,17 +521,22 @@ def run_filters(res, drv, rng, n_lists):
     for lst, rep, ln in zip(specs, reps, lines):
         res.evaluations += 1
         objs = [build(c) for c in lst]
-        kept = remove_redundant_circuits(objs)
-        kept_idx = [next(i for i, o in enumerate(objs) if o is k) for k in kept]
         inp = {"list": [enc(c) for c in lst]}
-        st = CircuitStorage()
-        flags_d = "".join("1" if st.add_new_circuit(o) else "0" for o in objs)
 
         def iso_check(a, b):
             return iso_norm(a, b)
 
-        st2 = CircuitStorage(check_function=iso_check)
-        flags_i = "".join("1" if st2.add_new_circuit(o) else "0" for o in objs)
+        try:
+            kept = remove_redundant_circuits(objs)
+            kept_idx = [next(i for i, o in enumerate(objs) if o is k) for k in kept]
+            st = CircuitStorage()
+            flags_d = "".join("1" if st.add_new_circuit(o) else "0" for o in objs)
+            st2 = CircuitStorage(check_function=iso_check)
+            flags_i = "".join("1" if st2.add_new_circuit(o) else "0" for o in objs)
+        except Exception as e:  # noqa: BLE001 — the filters must not raise on a list of valid circuits
+            res.violation(f"filter:raises:{err_class(e)}", "remove_redundant_circuits / CircuitStorage raised on a list of valid circuits",
+                          input=inp, impl=repr(e)[:200], model=rep["_raw"][:200])
+            continue
         if rep["_status"] != "ok":
             res.exact_break("c15.filter", input=inp, model=rep["_raw"][:300])
         else:
@@ -593,6 +674,7 @@ def run(ctx):
         res.notes.append("exhaustive: all 12,321 ordered pairs of circuits with <= 2 operations over a 10-operation alphabet on two emitters")
     run_pairs(res, drv, ex)
     run_pairs(res, drv, gen_pairs(rng, 700 if q else 7000))
+    run_history(res, drv, rng, 250 if q else 2500)
     run_graphs(res, drv, [random_small(rng, max_q=5, max_ops=14) for _ in range(150 if q else 1500)])
     run_filters(res, drv, rng, 60 if q else 600)
     run_ged(res, rng, 12 if q else 60)
